@@ -24,11 +24,25 @@ namespace cnl::_impl {
     template<typename Scalar>
     requires integer<Scalar>
     struct to_chars_capacity<Scalar> {
-        [[nodiscard]] constexpr auto operator()(int /*base*/ = 10) const
+        [[nodiscard]] constexpr auto operator()(int base = 10) const
         {
             auto const sign_chars = static_cast<int>(cnl::numbers::signedness_v<Scalar>);
-            auto const integer_chars = static_cast<int>(std::numeric_limits<Scalar>::digits * std::numbers::ln2 / std::numbers::ln10) + 1;
-            return sign_chars + integer_chars;
+            auto const decimal_chars = static_cast<int>(std::numeric_limits<Scalar>::digits * std::numbers::ln2 / std::numbers::ln10) + 1;
+            if (base != 10) {
+                // floor(log2(base^8)): eight digits of the base hold at least that many bits
+                auto base_pow_8 = 1LL;
+                for (auto i = 0; i != 8; ++i) {
+                    base_pow_8 *= base;
+                }
+                auto bits_per_8_digits = -1;
+                for (; base_pow_8; base_pow_8 /= 2) {
+                    ++bits_per_8_digits;
+                }
+                // (the most negative value is 2^digits in magnitude)
+                auto const integer_chars = std::numeric_limits<Scalar>::digits * 8 / bits_per_8_digits + 1;
+                return sign_chars + ((integer_chars > decimal_chars) ? integer_chars : decimal_chars);
+            }
+            return sign_chars + decimal_chars;
         }
     };
 }
